@@ -502,6 +502,34 @@ def case_field_edits(ctx, s: Subject, malformed=False):
     real = call_real(setit)
     ctx.case("nest.setitem", {**s.desc(), "field": f, "ty": t, "value": value}, real, mser2(ans["model"]), mser2(ans["spec"]),
              hyp=s.hyp, features=feats + ("inplace",), nontrivial=s.nontrivial())
+    # the in-place setter keeps the field's element type: values of ANOTHER numeric kind are stored only when that type
+    # holds them exactly (fractions offered to an integer field, integers beyond 2**53 offered to a double field are
+    # refused — never rounded or truncated silently)
+    numf = [(nm, tt) for nm, tt in ty if tt in ("int64", "double")]
+    if numf and total > 0 and not s.hyp.get("hidden"):
+        f2, t2 = rng.choice(numf)
+        if t2 == "int64":
+            offered = [rng.choice([0.5, 2.75, -1.25, 3.0, 1e3 + 0.1]) for _ in range(total)]
+            pyv2 = rng.choice([lambda: np.array(offered, dtype=np.float64), lambda: pa.array(offered, type=pa.float64()),
+                               lambda: offered[0]])
+        else:
+            offered = [rng.choice([2**53 + 1, 2**60 + 3, -(2**53) - 1, 7]) for _ in range(total)]
+            pyv2 = rng.choice([lambda: np.array(offered, dtype=np.int64), lambda: pa.array(offered, type=pa.int64()),
+                               lambda: offered[0]])
+        ser3 = s.series()
+
+        def set_other_kind():
+            v = pyv2()
+            ser3.nest[f2] = v
+            stored = pa.array(ser3.nest[f2]).to_pylist()
+            want = [v] * total if np.ndim(v) == 0 else list(offered)
+            from fractions import Fraction
+            return {"exact": all((a is not None) and Fraction(a) == Fraction(b) for a, b in zip(stored, want)),
+                    "type_kept": str(pa.array(ser3.nest[f2]).type) == t2}
+        real = call_real(set_other_kind)
+        ok = "err" in real or (real["ok"]["exact"] and real["ok"]["type_kept"])
+        ctx.case("nest.setitem.other_numeric_kind", {**s.desc(), "field": f2, "ty": t2, "offered": offered}, real, None, None,
+                 hyp=s.hyp, features=feats + ("inplace", "other_kind", t2), spec_ok=ok, nontrivial=True)
 
 
 # ---- histories on one object (stale state, C02/C03/C05) ----------------------------------------
